@@ -14,7 +14,7 @@ for p in [l.strip() for l in open('claimed.txt') if l.strip() and not l.startswi
         print(m.replace('.', '/') + '.vo')
 PY
 )
-(cd theories && ./gen_coqproject.sh && make -f Makefile.coq -j16 $targets)
+(cd theories && ./gen_coqproject.sh && make -f Makefile.coq -j16 $targets Lib/Corr.vo)
 for p in $(grep -v '^#' claimed.txt); do
   n=$(echo $p | tr A-Z a-z)
   if [ -d harness/cmd/$n ]; then
